@@ -26,9 +26,9 @@ Fixpoint all2 (f : tree -> tree -> bool) (l1 l2 : list tree) : bool :=
 
 Definition spec_ok (c : case) (o : out) : bool :=
   match c, o with
-  | CForm b, OForm a => check b a
+  | CForm b, OForm a => accept b a
   | CTriv, OTriv => true
-  | CProg bs, OProg se afters => se && all2 check bs afters
+  | CProg bs, OProg se afters => se && all2 accept bs afters
   | _, _ => false
   end.
 
